@@ -236,6 +236,7 @@ type world struct {
 	R   *res.Result
 	api http.Handler // the real REST router (server/api)
 	hold *kvx15.Hold // holds single etcd requests of the storage's client
+	raw  kvBase      // the driver's own, independent access to the same keys (views, seeds, resets)
 
 	ambiguous bool // a failing service call straddled a second boundary of the TSO clock: its `now` is unknown
 }
@@ -334,7 +335,7 @@ func (w *world) await(t int) string {
 
 // ---------- storage view ----------
 func (w *world) view() string {
-	raw, err := w.b.Inner().Load(gcKey)
+	raw, err := w.raw.Load(gcKey)
 	if err != nil {
 		panic(err)
 	}
@@ -353,7 +354,7 @@ func (w *world) view() string {
 func (w *world) restList() {
 	rec := httptest.NewRecorder()
 	w.api.ServeHTTP(rec, httptest.NewRequest(http.MethodGet, "/pd/api/v1/gc/safepoint", nil))
-	raw, _ := w.b.Inner().Load(gcKey)
+	raw, _ := w.raw.Load(gcKey)
 	if raw != "" {
 		if _, err := strconv.ParseUint(raw, 16, 64); err != nil {
 			if rec.Code != http.StatusInternalServerError {
@@ -385,7 +386,7 @@ func (w *world) restList() {
 // all reads the service safe points with the driver's own unlimited range read of the underlying kv.Base (not through
 // Storage.GetAllServiceGCSafePoints, which is itself under test: see checkGetAll)
 func (w *world) all() []*core.ServiceSafePoint {
-	_, vs, err := w.b.Inner().LoadRange(svcPrefix, clientv3.GetPrefixRangeEnd(svcPrefix), 0)
+	_, vs, err := w.raw.LoadRange(svcPrefix, clientv3.GetPrefixRangeEnd(svcPrefix), 0)
 	if err != nil {
 		panic(err)
 	}
@@ -444,7 +445,7 @@ func find(all []*core.ServiceSafePoint, id string) *core.ServiceSafePoint {
 }
 
 func (w *world) reset() {
-	in := w.b.Inner()
+	in := w.raw
 	keys, _, err := in.LoadRange("gc/", clientv3.GetPrefixRangeEnd("gc/"), 0)
 	if err != nil {
 		panic(err)
@@ -677,7 +678,7 @@ func (w *world) exec(o *op) string {
 				e.Exp, e.Rel = now+e.Rel, 0
 			}
 			v, _ := json.Marshal(&core.ServiceSafePoint{ServiceID: e.ID, ExpiredAt: e.Exp, SafePoint: e.SP})
-			if err := w.b.Inner().Save(path.Join("gc", "safe_point", "service", e.ID), string(v)); err != nil {
+			if err := w.raw.Save(path.Join("gc", "safe_point", "service", e.ID), string(v)); err != nil {
 				panic(err)
 			}
 		}
@@ -689,12 +690,19 @@ func (w *world) exec(o *op) string {
 			o.Rel = 0
 		}
 		v, _ := json.Marshal(&core.ServiceSafePoint{ServiceID: o.ID, ExpiredAt: o.Exp, SafePoint: o.SP})
-		if err := w.b.Inner().Save(path.Join("gc", "safe_point", "service", o.ID), string(v)); err != nil {
+		if err := w.raw.Save(path.Join("gc", "safe_point", "service", o.ID), string(v)); err != nil {
 			panic(err)
 		}
 		return "BUnit"
 	}
 	panic("bad op")
+}
+
+type kvBase interface {
+	Load(key string) (string, error)
+	LoadRange(key, endKey string, limit int) ([]string, []string, error)
+	Save(key, value string) error
+	Remove(key string) error
 }
 
 type caseRec struct {
@@ -933,11 +941,11 @@ func (w *world) malformedProbe() {
 		w.R.Count("malformed-probe:set-up-refused")
 		return
 	}
-	if err := w.b.Inner().Save(svcPrefix+"b2", "{{not json"); err != nil {
+	if err := w.raw.Save(svcPrefix+"b2", "{{not json"); err != nil {
 		panic(err)
 	}
 	snapshot := func() string {
-		ks, vs, err := w.b.Inner().LoadRange("gc/", clientv3.GetPrefixRangeEnd("gc/"), 0)
+		ks, vs, err := w.raw.LoadRange("gc/", clientv3.GetPrefixRangeEnd("gc/"), 0)
 		if err != nil {
 			panic(err)
 		}
@@ -1346,7 +1354,9 @@ func main() {
 		"TTL <=0, finite, saturating), raw seeded entries (expired, live, infinite, finite gc_worker) and REST deletes on a real bootstrapped " +
 		"server; non-trivial = an acknowledged update overtook a parked one, or a storage fault, or a registration was refused below the " +
 		"minimum, or an expired entry was pruned, or a handler returned an error; distinct by sha256 of the canonical (ops,obs) text"
-	w := &world{x: x, st: st, b: b, hold: hold, ctx: context.Background(), R: R}
+	// views, seeds and resets use a kv.Base of their own over the server's client: what the driver reads must not depend on
+	// (or wait for) the storage object under test
+	w := &world{x: x, st: st, b: b, hold: hold, raw: kv.NewEtcdKVBase(x.S.GetClient(), path.Dir(x.S.GetClusterRootPath())), ctx: context.Background(), R: R}
 	tsoClock = func() int64 { return w.tsoNow().Unix() }
 	w.api, _, err = api.NewHandler(w.ctx, x.S)
 	if err != nil {
